@@ -201,8 +201,17 @@ func (b *bmpClient) loop() {
 			// The Loc-RIB instance is identified by the AS number and router id its
 			// Peer Up carries: every later message of this connection repeats them,
 			// whatever happens to the global configuration meanwhile (StopBgp clears it).
-			localAS := b.s.bgpConfig.Global.Config.As
-			routerID := b.s.bgpConfig.Global.Config.RouterId
+			var localAS uint32
+			var routerID netip.Addr
+			if err := b.s.mgmtOperation(func() error {
+				localAS = b.s.bgpConfig.Global.Config.As
+				routerID = b.s.bgpConfig.Global.Config.RouterId
+				return nil
+			}, true); err != nil {
+				// the BGP server has stopped since the watcher was started: its
+				// configuration is gone and there is nothing to report.
+				return true
+			}
 
 			// RFC9069 (minimal): announce a single Loc-RIB instance only when
 			// route-monitoring-policy includes local-rib.
